@@ -184,7 +184,7 @@ func runC05(c *core.Ctx) {
 	// 3. soup / corpus / mutants
 	n3 := c.PerShard(c.N(150000, 5000000))
 	for i := 0; i < n3; i++ {
-		src := wl.Mix(r, corpus)
+		src := mixDoc(r, corpus)
 		for k := 0; k < 4; k++ {
 			sp := specs[r.Intn(len(specs))]
 			if k == 0 {
